@@ -406,3 +406,27 @@ def rule_H5(ctx, F):
         ctx.ob(ok, "update-next-chunk-counter-absolute", t.get("s"),
                "chunk counter = %s ; required: derived from chunk_state.chunk_counter or adding initial_chunk_counter: "
                "count() is relative to the input offset" % show(c)[:160])
+
+
+def rule_AL(ctx, F):
+    """Subtree alignment while updating: a subtree of subtree_len bytes may be compressed at count_so_far only when
+    count_so_far is a multiple of subtree_len ((subtree_len - 1) & count_so_far == 0) -- otherwise its CV is not a node of
+    the BLAKE3 tree.  Path rule: the failing edge of that alignment test dominates every subtree compression site of
+    update_with_join (so no path reaches a compression with the test skipped)."""
+    fn = F.need_fn("Hasher::update_with_join")
+    sites = [(bi, t) for bi, t in fn.calls() if callee_name(t["callee"]) == "compress_subtree_to_parent_node"]
+    ctx.ob(len(sites) >= 1, "update-subtree-site", fn.loc, "%d compress_subtree_to_parent_node call(s)" % len(sites))
+    for bi, t in sites:
+        gs = guards_at(fn, bi)
+        ok = False
+        for c, tr in gs:
+            ands = [s for s in subterms(c) if s and s[0] == "bin" and s[1] == "BitAnd"]
+            if not ands:
+                continue
+            txt = show(c)
+            is_ne = unify(P.bin("Ne", W(), ("const", W(), 0)), c) is not None
+            is_eq = unify(P.bin("Eq", W(), ("const", W(), 0)), c) is not None
+            if "count" in txt and ((is_ne and not tr) or (is_eq and tr)):
+                ok = True
+        ctx.ob(ok, "update-subtree-alignment-dominates", t.get("s"),
+               "guards at the subtree compression: %s ; required: (subtree_len - 1) & count_so_far == 0 on every path" % "; ".join("%s=%s" % (show(c)[:70], tr) for c, tr in gs)[:400])
